@@ -135,6 +135,23 @@ def run(check):
       r_o.violate('a syntax is not parsed', prs, None, 'TaggedSeries.parse does not dispatch to %s' % sorted(set(PARSERS) - calls),
                   construct='parse dispatch')
 
+  pc = ts.methods.get('parse_carbon')
+  if pc is not None:
+    splits = [c for c in walk_no_nested(pc.node, include_self=False) if isinstance(c, ast.Call) and isinstance(c.func, ast.Attribute)
+              and c.func.attr in ('split', 'partition', 'rsplit', 'rpartition') and c.args and isinstance(c.args[0], ast.Constant)
+              and c.args[0].value == '=']
+    for c in splits:
+      first = (c.func.attr == 'partition') or (c.func.attr == 'split' and len(c.args) == 2 and isinstance(c.args[1], ast.Constant)
+                                                and c.args[1].value == 1)
+      if first:
+        r_o.ok('carbon syntax: a tag segment is split at its first "=" (values may contain "=")', pc.loc(c))
+      else:
+        r_o.violate('tag segment split at the wrong "="', pc, c, '`%s` does not split `tag=value` at the first "=": a value containing "=" '
+                    '(accepted in OpenMetrics syntax and by the tag rules) is cut in the wrong place, the name is rejected and the two '
+                    'syntaxes no longer normalise alike' % unparse(c))
+    if not splits:
+      r_o.cannot_decide('parse_carbon: splitting of `tag=value` not recognised')
+
   # ------------------------------------------------------------------ validation
   r_v = check.rule('R-C18-validation', 3, 'every tag is validated before it is stored; every rejecting branch raises')
   for pn in PARSERS:
